@@ -17,9 +17,111 @@ import (
 )
 
 type c18Blocking struct {
-	in   ssa.CallInstruction
+	in   ssa.CallInstruction // the call in the loop: the blocking call itself, or the call of the helper that blocks
 	conn effects.FPath
 	name string
+	// the blocking call sits in a helper that sets a read deadline on the same connection before it
+	deadlineInHelper bool
+}
+
+// c18HelperBlock: a blocking call inside a helper, with its connection in the helper's terms.
+type c18HelperBlock struct {
+	conn     effects.FPath
+	name     string
+	deadline bool
+}
+
+func c18IsDeadlineCall(c *ssa.CallCommon) bool {
+	obj := effects.CalleeObj(c)
+	return obj != nil && obj.Pkg() != nil && obj.Pkg().Path() == "net" && (obj.Name() == "SetReadDeadline" || obj.Name() == "SetDeadline")
+}
+
+// translatePath re-roots a path expressed in callee g's terms (receiver / parameter of g)
+// at the arguments of the call c.
+func (k *c18) translatePath(p effects.FPath, g *ssa.Function, c *ssa.CallCommon) effects.FPath {
+	if !p.OK || p.Global != nil || p.Fresh != nil {
+		return p
+	}
+	if p.Fn != g {
+		return effects.FPath{}
+	}
+	idx := p.Param
+	if p.RecvType != nil {
+		idx = 0
+	}
+	args := effects.AllArgs(c)
+	if idx < 0 || idx >= len(args) {
+		return effects.FPath{}
+	}
+	base := k.pg.PathOf(args[idx])
+	if !base.OK {
+		return base
+	}
+	base.Fields = append(append([]*types.Var{}, base.Fields...), p.Fields...)
+	return base
+}
+
+// blockingInside lists the blocking Read*/Accept* calls a helper performs (in its own body
+// and, two levels deep, in the module functions it calls synchronously). A function whose
+// blocking call sits in an unbounded loop of its own is a serve loop itself, not a helper.
+func (k *c18) blockingInside(g *ssa.Function, depth int) []c18HelperBlock {
+	if g == nil || g.Blocks == nil || depth > 2 {
+		return nil
+	}
+	loops := effects.Loops(g)
+	var out []c18HelperBlock
+	for _, b := range g.Blocks {
+		for _, in := range b.Instrs {
+			call, ok := in.(*ssa.Call)
+			if !ok {
+				continue
+			}
+			if conn, name, ok := effects.BlockingCall(&call.Call); ok {
+				for _, l := range loops {
+					if l.Blocks[b] && k.unboundedFor(g, l) {
+						return nil
+					}
+				}
+				pth := k.pg.PathOf(conn)
+				hb := c18HelperBlock{conn: pth, name: name}
+				for _, b2 := range g.Blocks {
+					for _, in2 := range b2.Instrs {
+						ci, ok := in2.(ssa.CallInstruction)
+						if !ok || !c18IsDeadlineCall(ci.Common()) {
+							continue
+						}
+						if a := effects.AllArgs(ci.Common()); len(a) > 0 && k.pg.PathOf(a[0]).Same(pth) && effects.Precedes(in2, in) {
+							hb.deadline = true
+						}
+					}
+				}
+				out = append(out, hb)
+				continue
+			}
+			if h := call.Call.StaticCallee(); h != nil && h != g && h.Blocks != nil && k.p.InModule(h) {
+				for _, hb := range k.blockingInside(h, depth+1) {
+					hb.conn = k.translatePath(hb.conn, h, &call.Call)
+					hb.name = h.Name() + "→" + hb.name
+					if !hb.deadline && hb.conn.OK {
+						// a deadline set in g before calling h covers the call
+						for _, b2 := range g.Blocks {
+							for _, in2 := range b2.Instrs {
+								ci, ok := in2.(ssa.CallInstruction)
+								if !ok || !c18IsDeadlineCall(ci.Common()) {
+									continue
+								}
+								if a := effects.AllArgs(ci.Common()); len(a) > 0 && k.pg.PathOf(a[0]).Same(hb.conn) && effects.Precedes(in2, in) {
+									hb.deadline = true
+								}
+							}
+						}
+					}
+					out = append(out, hb)
+				}
+			}
+		}
+	}
+	return out
 }
 
 type c18ServeLoop struct {
@@ -91,8 +193,18 @@ func (k *c18) serveLoops() []*c18ServeLoop {
 				if !ok {
 					continue
 				}
-				conn, name, ok := effects.BlockingCall(ci.Common())
-				if !ok {
+				var found []c18Blocking
+				if conn, name, ok := effects.BlockingCall(ci.Common()); ok {
+					found = append(found, c18Blocking{in: ci, conn: k.pg.PathOf(conn), name: name})
+				} else if call, isCall := in.(*ssa.Call); isCall {
+					// the read may have been moved into a helper (readPacket(buf), readMessage(conn))
+					if h := call.Call.StaticCallee(); h != nil && h.Blocks != nil && k.p.InModule(h) {
+						for _, hb := range k.blockingInside(h, 0) {
+							found = append(found, c18Blocking{in: ci, conn: k.translatePath(hb.conn, h, &call.Call), name: h.Name() + "→" + hb.name, deadlineInHelper: hb.deadline})
+						}
+					}
+				}
+				if len(found) == 0 {
 					continue
 				}
 				// outermost unbounded loop containing the call
@@ -114,7 +226,7 @@ func (k *c18) serveLoops() []*c18ServeLoop {
 					byLoop[L] = sl
 					out = append(out, sl)
 				}
-				sl.blocking = append(sl.blocking, c18Blocking{ci, k.pg.PathOf(conn), name})
+				sl.blocking = append(sl.blocking, found...)
 			}
 		}
 	}
@@ -450,6 +562,10 @@ func (k *c18) r4() {
 					k.r.Undecided("R4-unblock", c3, k.pos(bc.in), "the connection operand could not be resolved to a field or parameter")
 					return
 				}
+				if bc.deadlineInHelper {
+					k.r.OK("R4-unblock", c3, k.pos(bc.in), "the helper sets a Set(Read)Deadline on the same connection before the blocking call, so the loop returns to its quit test")
+					return
+				}
 				// deadline before the call, inside the loop
 				for b := range sl.loop.Blocks {
 					for _, in := range b.Instrs {
@@ -468,7 +584,7 @@ func (k *c18) r4() {
 						if len(args) == 0 || !k.pg.PathOf(args[0]).Same(bc.conn) {
 							continue
 						}
-						if effects.Precedes(in, bc.in) {
+						if ssa.Instruction(in) != ssa.Instruction(bc.in) && effects.Precedes(in, bc.in) {
 							k.r.OK("R4-unblock", c3, k.pos(bc.in), obj.Name()+" on the same connection precedes the call in every iteration, so the loop returns to its quit test")
 							return
 						}
@@ -501,7 +617,9 @@ func (k *c18) r4() {
 		}
 	}
 	k.r.Floor("R4-stop-closes-quit", 6)
-	k.r.Floor("R4-unblock", 7)
+	// every blocking call of every serve loop is judged; the floor is one per serve loop (6),
+	// not the number of read statements a loop happens to be written with
+	k.r.Floor("R4-unblock", 6)
 
 	// ---- R4-wg: goroutines the stop function waits for
 	type tinfo struct {
